@@ -147,7 +147,41 @@ func twinScan(w *world.World, seed int64) *world.TwinObs {
 		tw.Order[g] = append([]string{}, w.Order[g]...)
 	}
 	line := tw.Scan(nil)
-	return &world.TwinObs{Writes: world.Writes(line.Calls)}
+	obs := &world.TwinObs{Writes: world.Writes(line.Calls), NoAnnotTerminated: map[string][]string{}, CloneTerminated: map[string][]string{}}
+	// two more clones with the controller memory kept: one exact, one without any no-delete annotation
+	for _, strip := range []bool{false, true} {
+		c2 := s.Clone()
+		out := obs.CloneTerminated
+		if strip {
+			out = obs.NoAnnotTerminated
+		}
+		for g, gs := range c2.Groups {
+			if strip {
+				for n, o := range gs.Api {
+					o.Nodel = false
+					gs.Api[n] = o
+				}
+				for n, o := range gs.View {
+					o.Nodel = false
+					gs.View[n] = o
+				}
+			}
+			c2.Groups[g] = gs
+			out[g] = []string{}
+		}
+		if tw2, err := world.Build(seed+2, c2); err == nil {
+			for g := range c2.Groups {
+				tw2.Order[g] = append([]string{}, w.Order[g]...)
+			}
+			l2 := tw2.Scan(nil)
+			for _, cl := range l2.Calls {
+				if cl.Op == "terminate" && cl.Ok {
+					out[cl.G] = append(out[cl.G], cl.N)
+				}
+			}
+		}
+	}
+	return obs
 }
 
 // ---------------------------------------------------------------- random histories
